@@ -49,7 +49,7 @@ class C19(Prop):
             "futures and year 1970..2099 (12 480 contracts): expiry, last trading date and symbol compared exactly with "
             "the model and with the rule computed from the standard library; plus chain spans: all built-in classes, "
             "random (start, end) month pairs inside 1970..2099 including the full span, listing / ordering / unique "
-            "symbols / discontinuation events, the latter two also with the shared simulation clock moved inside and past the span. Non-trivial = every case (each covers a whole class or a whole chain); "
+            "symbols / discontinuation events, the latter two also with the shared simulation clock moved inside and past the span, and the events again after the caller edited the list it was given. Non-trivial = every case (each covers a whole class or a whole chain); "
             "distinct = distinct (class) / (class, span)")
     assumptions = [
         "pandas.date_range month/quarter-end enumeration is modelled (listing) and compared, not trusted",
@@ -116,6 +116,20 @@ class C19(Prop):
         evs = ch.make_events()
         if [(e.time, e.contract.symbol) for e in evs] != list(zip(exps, syms)):
             r.fail("chain-events", cls=name)
+        # the list handed out belongs to the caller: whatever the caller does to it (merging the events of several
+        # chains with +=, draining it, trimming it) the chain still answers with one event per contract
+        mine = ch.make_events()
+        how = (len(syms) + y1 + m1) % 3
+        if how == 0:
+            mine += ch.make_events()
+        elif how == 1:
+            mine.clear()
+        else:
+            del mine[len(mine) // 2:]
+        again = ch.make_events()
+        if [(e.time, e.contract.symbol) for e in again] != list(zip(exps, syms)):
+            r.fail("chain-events", cls=name, after="the caller edited the list returned earlier", events=len(again), contracts=len(syms),
+                   clause="exactly one discontinuation event per contract stamped at its expiry")
         # "exactly one discontinuation event per contract" whatever the shared simulation clock shows: the clock is a
         # class attribute left wherever the previous environment of the process stopped
         saved = tc.AbstractContract.now
